@@ -16,7 +16,7 @@
 using namespace mustache;
 template<int N> struct Ev { int payload; };
 
-struct AnyReceiver { std::function<void()> unsubscribe; std::function<void()> destroy; bool alive = true; };
+struct AnyReceiver { std::function<void()> unsubscribe; std::function<void()> destroy; std::function<void(EventManager&)> resubscribe; bool alive = true; };
 
 static std::vector<int> g_delivered;
 
@@ -27,6 +27,7 @@ static AnyReceiver subscribe(EventManager& em, int rid) {
     AnyReceiver r;
     r.unsubscribe = [holder] { if (*holder) (*holder)->unsubscribe(); };
     r.destroy = [holder] { holder->reset(); };
+    r.resubscribe = [holder](EventManager& m) { if (*holder) m.subscribe_<Ev<N>>(holder->get()); };   // the same receiver object again
     return r;
 }
 template<int N> static void post(EventManager& em) { em.post(Ev<N>{N}); }
@@ -53,6 +54,8 @@ static void run_script(const std::vector<std::string>& lines) {
                 printf("R r%d\n", rid);
             } else printf("R\n");
         }
+        else if (op == "resub") { // resub <r> <m>: subscribe an existing, currently unsubscribed receiver again
+            size_t r, m; in >> r >> m; if (r < recvs.size() && recvs[r].alive && m < mgrs.size() && mgrs[m]) recvs[r].resubscribe(*mgrs[m]); printf("R\n"); }
         else if (op == "unsub") { size_t r; in >> r; if (r < recvs.size() && recvs[r].alive) recvs[r].unsubscribe(); printf("R\n"); }
         else if (op == "delrecv") { size_t r; in >> r; if (r < recvs.size() && recvs[r].alive) { recvs[r].destroy(); recvs[r].alive = false; } printf("R\n"); }
         else if (op == "post") {
